@@ -1,8 +1,10 @@
 //! SIM-IO: single-threaded stream / policy / allocator simulator for seq_io.
 //! usage: sim-io <PROPERTY-ID> [--tier quick|thorough] [--seed N] [--replay FILE] [--digest] [--runs N]
 
+mod alloc;
 mod checks;
 mod checks2;
+mod checks3;
 mod drive;
 mod gen;
 mod judge;
@@ -12,6 +14,36 @@ mod scn;
 mod seam;
 
 use vcore::{Check, Opts};
+
+#[global_allocator]
+static GLOBAL: alloc::CountingAlloc = alloc::CountingAlloc;
+
+/// (quick runs, thorough multiplier) per property; sized for ~3 s quick / ~2-4 min thorough on 16 cores
+pub fn budget_for(id: &str, tier: vcore::Tier) -> u64 {
+    let (q, m): (u64, u64) = match id {
+        "C01" => (1000000, 40),
+        "C02" => (1000000, 40),
+        "C03" => (400000, 40),
+        "C04" => (500000, 40),
+        "C05" => (500000, 40),
+        "C06" => (100000, 40),
+        "C09" => (500000, 40),
+        "C10" => (600000, 40),
+        "C11" => (600000, 40),
+        "C12" => (300000, 40),
+        "C13" => (500000, 40),
+        "C14" => (80000, 40),
+        "C17" => (1000000, 40),
+        "C18" => (80000, 30),
+        "C19" => (400000, 40),
+        "C20" => (400000, 40),
+        _ => (100_000, 20),
+    };
+    match tier {
+        vcore::Tier::Quick => q,
+        vcore::Tier::Thorough => q * m,
+    }
+}
 
 fn make(id: &str) -> Option<Box<dyn Check>> {
     Some(match id {
@@ -23,6 +55,9 @@ fn make(id: &str) -> Option<Box<dyn Check>> {
         "C09" => Box::new(checks2::C09),
         "C12" => Box::new(checks2::C12),
         "C14" => Box::new(checks2::C14),
+        "C10" => Box::new(checks3::C10),
+        "C11" => Box::new(checks3::C11),
+        "C18" => Box::new(checks3::C18),
         _ => return None,
     })
 }
